@@ -614,7 +614,7 @@ impl IoReader {
 //@@ param visitor : VisS
 //@@ ret Result<VisValue, Error>
 //@@ subst `std::str::from_utf8(&self.buf[..len])` => `str_from_utf8(vstd::slice::slice_subrange(self.buf.as_slice(), 0, len))` rule=R9
-//@@ subst `self.buf.drain(..len)` => `vec_drain_front(&mut self.buf, len)` rule=R9
+//@@ subst `self.buf.drain(..len)` => `vec_drain_front(&mut self.buf, len)` rule=optional-R9
 //@@ spec
     requires bounded(*old(self)),
     ensures str_forwarded(*old(self), *final(self), len, r), final(self).wf(),     // [C20.reader.forward-exact] (spelled out in str_forwarded above)
@@ -628,7 +628,7 @@ impl IoReader {
 //@@ param visitor : VisS
 //@@ ret Result<VisValue, Error>
 //@@ subst `visitor.visit_bytes(&self.buf[..len])` => `visitor.visit_bytes_of(vstd::slice::slice_subrange(self.buf.as_slice(), 0, len))` rule=R9
-//@@ subst `self.buf.drain(..len)` => `vec_drain_front(&mut self.buf, len)` rule=R9
+//@@ subst `self.buf.drain(..len)` => `vec_drain_front(&mut self.buf, len)` rule=optional-R9
 //@@ spec
     requires bounded(*old(self)),
     ensures bytes_forwarded(*old(self), *final(self), len, visitor, r), final(self).wf(),     // [C20.reader.forward-exact] (spelled out in bytes_forwarded above)
